@@ -96,9 +96,6 @@ pub fn run_case(ctx: &mut Ctx, case: &Value) {
         ctx.report.diff("property", "Issuer::encode", "Issuer::encode:framing", case, json!({"token": token, "paths": paths}));
         return;
     }
-    for (i, id) in order.iter().enumerate() {
-        tree.set_disc(*id, &discs[i]);
-    }
     let (_hdr, payload) = match real::peek_jwt(&jwt) {
         Some(x) => x,
         None => {
@@ -106,6 +103,7 @@ pub fn run_case(ctx: &mut Ctx, case: &Value) {
             return;
         }
     };
+    super::flowkit::attach_issued(ctx, &mut tree, &order, &payload, &discs);
     if kb && payload.get("cnf") != Some(&jwk) {
         ctx.report.diff("property", "Issuer::encode", "Issuer::encode:cnf-is-not-the-required-key", case,
             json!({"cnf": payload.get("cnf"), "earlier_encodes": reissue}));
@@ -114,7 +112,7 @@ pub fn run_case(ctx: &mut Ctx, case: &Value) {
         ctx.report.diff("property", "Issuer::encode", "Issuer::encode:cnf-without-key-binding", case, json!({"cnf": payload.get("cnf")}));
     }
     // --- spec view of the issued token
-    let spec = tree_op(ctx, "sha-256", &tree, payload.get("_sd"), &[]);
+    let spec = tree_op(ctx, "sha-256", &tree, None, &[]);
     if payload.get("_sd_alg") != Some(&json!("sha-256")) {
         ctx.report.diff("property", "Issuer::encode", "Issuer::encode:_sd_alg", case, json!({"payload": payload}));
     }
@@ -128,10 +126,11 @@ pub fn run_case(ctx: &mut Ctx, case: &Value) {
         ctx.report.diff("internal", "Issuer::encode", "tree-hypotheses-not-met", case, json!({"wf": spec["wf"], "nodup": spec["nodup"]}));
     }
     // disclosure contents as the harness decodes them
-    for (i, id) in order.iter().enumerate() {
+    for id in order.iter() {
         let m = mark_by_id(&marks, *id);
-        let d = decode_disclosure(&discs[i]);
         let sd = spec["discs"].as_array().and_then(|a| a.iter().find(|x| x["id"] == json!(id))).cloned().unwrap_or(Value::Null);
+        let dstr = sd["str"].as_str().unwrap_or("").to_string();
+        let d = decode_disclosure(&dstr);
         let ok = match (&d, &m.key) {
             (Some(a), Some(k)) => a.len() == 3 && a[1] == json!(k) && real::canon_sd(&a[2]) == real::canon_sd(&sd["value"]) && a[0].is_string(),
             (Some(a), None) => a.len() == 2 && real::canon_sd(&a[1]) == real::canon_sd(&sd["value"]) && a[0].is_string(),
@@ -139,7 +138,7 @@ pub fn run_case(ctx: &mut Ctx, case: &Value) {
         };
         if !ok {
             ctx.report.diff("property", "Issuer::encode", "Issuer::encode:disclosure-content", case,
-                json!({"disclosure": discs[i], "decoded": d, "expected": sd}));
+                json!({"disclosure": dstr, "decoded": d, "expected": sd}));
         }
     }
     // --- holder
